@@ -78,11 +78,14 @@ def correspond(ctx, drivers):
     from srctools.tokenizer import Tokenizer, TokenSyntaxError, escape_text
     drv = drivers['drv_tok']
     plain = list(gen_strings(ctx)) + list(gen_random(ctx, ctx.budget(20000, 300000)))
+    rng0 = ctx.rng
     ctx.exhaustive = False
     ctx.extra['exhaustive_part'] = f'all strings of length <= {ctx.budget(4, 5)} over SIGMA17, both modes'
     reqs, meta = [], []
     for s in plain:
-        for ml in (False, True):
+        # the order of the two modes is random per string, so a result that depends on the previous
+        # call (memoisation keyed on the text only, shared scratch state) shows up either way round
+        for ml in ((False, True) if rng0.random() < 0.5 else (True, False)):
             esc = escape_text(s, ml)
             text = '"' + esc + '"'
             r = tokutil.impl_run(Tokenizer, TokenSyntaxError, text, tokutil.DEFAULT_OPTS, max_calls=8)
@@ -113,6 +116,16 @@ def correspond(ctx, drivers):
         npre = len(pr['toks']) - 1
         if pr['err'] is None and not (len(r['toks']) > npre and r['toks'][npre][0] == 1 and r['toks'][npre][1] == codes(s)):
             ctx.witness('inverse-embedded', f'embedded escape_text({s!r},{ml}) after {pre!r} not read back as one STRING token', {'s': codes(s), 'multiline': ml, 'pre': pre, 'suf': suf, 'opts': opts})
+    # history independence: the same calls again, in another order and on fresh tokenizers, must give the
+    # same answers as the first time (anything else is a dependence on earlier calls)
+    sample = meta[::max(1, len(meta) // 4000)]
+    for (s, ml, esc, r) in reversed(sample):
+        esc2 = escape_text(s, ml)
+        r2 = tokutil.impl_run(Tokenizer, TokenSyntaxError, '"' + esc2 + '"', tokutil.DEFAULT_OPTS, max_calls=8)
+        ctx.count('history-recheck')
+        if esc2 != esc or r2 != r:
+            ctx.disagree({'s': codes(s), 'ml': ml}, {'first': [codes(esc), r], 'again': [codes(esc2), r2]}, 'same call, same answer', 'history independence')
+            _check_impl(ctx, s, ml, esc2, r2)
     replies = drv.batch(reqs)
     it = iter(replies)
     for (s, ml, esc, r) in meta:
